@@ -496,18 +496,17 @@ where
             (records, tree)
         };
 
-        let delete_ids =
-            records.iter().map(|r| *r.commit()).collect::<Vec<_>>();
-
-        // Delete from the database
+        // Delete from the database, only the most recent rows
+        // of this event log (commit hashes are not unique across
+        // event logs or even within a single event log)
+        let num_delete = records.len();
         let log_type = self.log_type;
+        let id: i64 = (&self.owner).into();
         self.client
             .conn_mut(move |conn| {
                 let tx = conn.transaction()?;
                 let events = EventEntity::new(&tx);
-                for id in delete_ids {
-                    events.delete_one(log_type, &id)?;
-                }
+                events.delete_last_events(log_type, id, num_delete)?;
                 tx.commit()?;
                 Ok(())
             })
